@@ -213,9 +213,38 @@ def run(ck, facts):
                 is_self = any(l_ in ("this", "self") for l_ in C.str_lits(n["a"][1])) if len(n.get("a") or []) > 1 else False
                 let = bound_inits.get(id(n))
                 used = False
+
+                def inspects_struct(fn_, lid_, depth=0):
+                    """fn_ looks at the ParamBorrowInfo held in local lid_ for its Struct case -- itself, or by handing it to a helper that does"""
+                    fb_ = C.fn_body(fn_)
+                    for x in C.walk(fb_):
+                        pats = []
+                        if x.get("k") == "if":
+                            c_ = C.strip_keep_macro(x["c"])
+                            if isinstance(c_, dict) and c_.get("k") == "let" and any(y.get("k") == "local" and y.get("id") == lid_ for y in C.walk(c_.get("init"))):
+                                pats.append(c_.get("pat"))
+                        if x.get("k") == "match" and any(y.get("k") == "local" and y.get("id") == lid_ for y in C.walk(x.get("s"))):
+                            pats += [a_["pat"] for a_ in x["arms"]]
+                        if x.get("k") == "letst" and x.get("els") is not None and x.get("init") is not None and any(y.get("k") == "local" and y.get("id") == lid_ for y in C.walk(x["init"])):
+                            pats.append(x.get("pat"))
+                        for p_ in pats:
+                            for q in C.walk(p_) if isinstance(p_, dict) else []:
+                                if q.get("k") == "variant" and q.get("v") == "Struct" and "ParamBorrowInfo" in (q.get("adt") or ""):
+                                    return True
+                        if depth < 2 and x.get("k") in ("call", "mcall"):
+                            args = ([x["recv"]] + list(x.get("a") or [])) if x.get("k") == "mcall" else list(x.get("a") or [])
+                            cal = tool.norm.get(C.norm_path(x.get("p") or C.callee(x) or ""))
+                            if cal and "hir" in cal and cal is not fn_:
+                                for j_, a_ in enumerate(args):
+                                    if any(y.get("k") == "local" and y.get("id") == lid_ for y in C.walk(a_)):
+                                        ps_ = cal["hir"].get("params") or []
+                                        if j_ < len(ps_) and isinstance(ps_[j_], dict) and ps_[j_].get("id") is not None and inspects_struct(cal, ps_[j_]["id"], depth + 1):
+                                            return True
+                    return False
                 if let is not None and let["pat"].get("k") == "bind":
                     lid = let["pat"].get("id")
-                    for x in C.walk(gb):
+                    used = inspects_struct(g_, lid)
+                    for x in []:
                         pats = []
                         if x.get("k") == "if":
                             c_ = C.strip_keep_macro(x["c"])
